@@ -108,7 +108,7 @@ fn messages_rules(s: u32, t: u32) {
     kani::cover!(p.poll_messages(1, s, t).is_ok() && !w.g.poll_messages, "poll granted below global level");
     core::mem::forget(p);
 }
-harness! { #[kani::unwind(8)] fn c09_message_rules_sound_s1_t1() { messages_rules(1, 1) } }
+harness! { #[kani::unwind(8)] fn c09_message_rules_sound_s1_t1_t() { messages_rules(1, 1) } }
 harness! { #[kani::unwind(8)] fn c09_message_rules_sound_s1_t2() { messages_rules(1, 2) } }
 
 fn topic_rules(s: u32, t: u32, topics_forced: Option<bool>) {
@@ -124,7 +124,7 @@ fn topic_rules(s: u32, t: u32, topics_forced: Option<bool>) {
     core::mem::forget(p);
 }
 // with a topic table present in every stream record
-harness! { #[kani::unwind(8)] fn c09_topic_rules_sound_s1_t1() { topic_rules(1, 1, Some(true)) } }
+harness! { #[kani::unwind(8)] fn c09_topic_rules_sound_s1_t1_t() { topic_rules(1, 1, Some(true)) } }
 harness! { #[kani::unwind(8)] fn c09_topic_rules_sound_s1_t2() { topic_rules(1, 2, Some(true)) } }
 // "evaluating permissions never crashes whatever combination of records the user has":
 // stream records WITHOUT a topic table
@@ -143,11 +143,11 @@ fn list_topics_rule(s: u32) {
     core::mem::forget(p);
 }
 harness! { #[kani::unwind(8)] fn c09_list_topics_sound_s1() { list_topics_rule(1) } }
-harness! { #[kani::unwind(8)] fn c09_list_topics_sound_s2() { list_topics_rule(2) } }
+harness! { #[kani::unwind(8)] fn c09_list_topics_sound_s2_t() { list_topics_rule(2) } }
 
 // granting more never turns an allowed request into a denied one (flag-wise monotonicity of the
 // two hot-path rules): P' = P with one more global / stream flag set
-harness! { #[kani::unwind(8)] fn c09_monotone_in_flags() {
+harness! { #[kani::unwind(8)] fn c09_monotone_in_flags_t() {
     let w = any_world(Some(true));
     let mut w2 = World { g_present: true, g: w.g.clone(), s: w.s };
     // raise an arbitrary subset of flags
@@ -171,7 +171,7 @@ harness! { #[kani::unwind(8)] fn c09_monotone_in_flags() {
 } }
 
 // root can do everything; update and delete take effect for the next request, other users unaffected
-harness! { #[kani::unwind(8)] fn c09_root_update_delete() {
+harness! { #[kani::unwind(8)] fn c09_root_update_delete_t() {
     let mut p = Permissioner::default();
     p.init_permissions_for_user(1, Some(Permissions::root()));
     assert!(p.poll_messages(1, 1, 2).is_ok() && p.append_messages(1, 2, 1).is_ok() && p.get_topic(1, 1, 1).is_ok());
